@@ -121,6 +121,43 @@ def dispatch_cases(run, rng, m, cls):
                 run.violation("request %s (padding %d) with codec %s dispatched as %r" % (name, pad, m.arg(), fired),
                               {"codec": m.arg(), "request": fr.hex(), "padding": pad, "expected": [name, payload.hex()]})
                 return False
+    # damaged / runt input must not reach any callback: random strings, and headers that declare a length
+    # shorter than header + footer (searched for a combination whose "footer" happens to validate)
+    import itertools
+    probes = [rng.bytes(rng.randrange(1, 12)) for _ in range(20)]
+    for flen in (range(m.hdr_len, m.hdr_len + m.foot_len) if hasattr(m, "len_bytes") else ()):
+        found = 0
+        for fid in (2, 3, 5, 6, 7):
+            for fill in itertools.product(range(0, 256, 5), repeat=max(0, min(2, m.hdr_len - 2 - m.len_bytes))):
+                h = bytearray(m.hdr_len)
+                h[0] = m.sof
+                h[m.len_pos:m.len_pos + m.len_bytes] = flen.to_bytes(m.len_bytes, "big" if m.len_be else "little")
+                h[m.id_pos] = fid
+                free = [i for i in range(1, m.hdr_len) if i != m.id_pos and not (m.len_pos <= i < m.len_pos + m.len_bytes)]
+                for i, v in zip(free, fill):
+                    h[i] = v
+                d = bytes(h)[:flen]
+                body, tail = d[:flen - m.foot_len], d[flen - m.foot_len:]
+                if flen - m.foot_len >= 0 and m.foot(body) == tail:
+                    probes.append(bytes(h) + rng.bytes(3))
+                    found += 1
+                if found >= 3:
+                    break
+            if found >= 3:
+                break
+    for d in probes:
+        del fired[:]
+        try:
+            pr.recv_handle(d)
+        except Exception as e:  # noqa: BLE001
+            fired.append(("raise", type(e).__name__.encode()))
+        i = d.find(bytes([m.sof]))
+        exp = m.accepts(d[i:]) if i >= 0 else None
+        run.count("dispatch-damaged", (m.key(), d))
+        if exp is None and fired:
+            run.violation("bytes %s that are not an acceptable frame of codec %s reached a callback: %r" % (d.hex(), m.arg(), fired),
+                          {"codec": m.arg(), "input": d.hex()})
+            return False
     return True
 
 
